@@ -6,4 +6,5 @@ export CARGO_NET_OFFLINE=true
 cd "$HERE/harness"
 cp /repo/Cargo.lock Cargo.lock
 cargo build --release --offline 2>&1 | tail -n 3
+cp /repo/Cargo.lock "$HERE/miri/Cargo.lock"
 echo "setup ok"
